@@ -102,17 +102,21 @@ Definition TI (s : st) (m : mon) (a : aux) (t : nat) (p : pc) : Prop :=
   | Idle | P1 _ | P2 _ _ | C1 => True
   | P3 v pw => pw <= sp s (idx pw)
   | P4 v pw => sp s (idx pw) = pw /\ pw < pP s /\ hi a (idx pw) = pw /\
-               nth_error (wP m) pw = Some (t, v) /\ pendP m t = Some pw
+               nth_error (wP m) pw = Some (t, v)
   | P5 v pw => sp s (idx pw) = pw /\ pw < pP s /\ hi a (idx pw) = pw + mask + 1 /\
-               nth_error (wP m) pw = Some (t, v) /\ pendP m t = Some pw
+               nth_error (wP m) pw = Some (t, v)
   | C2 pr => pr <= pC s
   | C3 pr => pr <= pC s /\ pr <= sc s (idx pr)
   | C3a pr => pr <= sc s (idx pr) /\ pr < sp s (idx pr)
   | C4 pr => sc s (idx pr) = pr /\ pr < pC s /\ pr < sp s (idx pr) /\ lo a (idx pr) = pr /\
-             nth_error (wC m) pr = Some t /\ pendC m t = Some pr
+             nth_error (wC m) pr = Some t
   | C5 pr d => sc s (idx pr) = pr /\ pr < pC s /\ pr < sp s (idx pr) /\ lo a (idx pr) = pr + mask + 1 /\
-               nth_error (wC m) pr = Some t /\ pendC m t = Some pr /\ payof m pr = Some d
+               nth_error (wC m) pr = Some t /\ payof m pr = Some d
   end.
+
+(* the ticket a thread holds between its CAS and its final store *)
+Definition holdP (p : pc) : option nat := match p with P4 _ pw | P5 _ pw => Some pw | _ => None end.
+Definition holdC (p : pc) : option nat := match p with C4 pr | C5 pr _ => Some pr | _ => None end.
 
 Record Inv (s : st) (m : mon) (a : aux) : Prop := {
   i_lenP : length (wP m) = pP s;
@@ -130,6 +134,7 @@ Record Inv (s : st) (m : mon) (a : aux) : Prop := {
   i_pay : forall i, i <= mask -> map Some (sl s i) = map (payof m) (slk a i);
   i_slk : forall i k, i <= mask -> In k (slk a i) -> k < pP s;
   i_rem : forall t, rem m t = cur (th s t);
+  i_pend : forall t, pendP m t = holdP (tpc (th s t)) /\ pendC m t = holdC (tpc (th s t));
   i_th : forall t, TI s m a t (tpc (th s t))
 }.
 
@@ -142,6 +147,7 @@ Proof.
   - split; [discriminate|]. destruct (le_lt_dec k mask) as [L|L]; [rewrite (I4 _ L) | pose proof (I1 k)]; lia.
   - constructor.
   - rewrite cur_start. reflexivity.
+  - destruct (nth t progs []) as [|[v|] r]; split; reflexivity.
   - destruct (nth t progs []) as [|[v|] r]; exact I.
 Qed.
 
@@ -155,34 +161,31 @@ Lemma TI_stable s m a s' m' a' t0 p :
   (forall i, sp s i <= sp s' i) -> (forall i, sc s i <= sc s' i) ->
   (forall k x, nth_error (wP m) k = Some x -> nth_error (wP m') k = Some x) ->
   (forall k x, nth_error (wC m) k = Some x -> nth_error (wC m') k = Some x) ->
-  pendP m' t0 = pendP m t0 -> pendC m' t0 = pendC m t0 ->
   (forall v pw, p = P4 v pw \/ p = P5 v pw ->
      sp s' (idx pw) = sp s (idx pw) /\ hi a' (idx pw) = hi a (idx pw)) ->
   (forall pr, p = C4 pr \/ (exists d, p = C5 pr d) ->
      sc s' (idx pr) = sc s (idx pr) /\ lo a' (idx pr) = lo a (idx pr)) ->
   TI s' m' a' t0 p.
 Proof.
-  intros H HP HC Hsp Hsc HwP HwC HpP HpC HholdP HholdC.
+  intros H HP HC Hsp Hsc HwP HwC HholdP HholdC.
   destruct p; cbn [TI] in *; auto.
   - specialize (Hsp (idx pw)). lia.
-  - destruct (HholdP v pw (or_introl eq_refl)) as [E1 E2]. rewrite E1, E2, HpP.
-    destruct H as (?&?&?&?&?). repeat split; auto; lia.
-  - destruct (HholdP v pw (or_intror eq_refl)) as [E1 E2]. rewrite E1, E2, HpP.
-    destruct H as (?&?&?&?&?). repeat split; auto; lia.
+  - destruct (HholdP v pw (or_introl eq_refl)) as [E1 E2]. rewrite E1, E2.
+    destruct H as (?&?&?&?). repeat split; auto; lia.
+  - destruct (HholdP v pw (or_intror eq_refl)) as [E1 E2]. rewrite E1, E2.
+    destruct H as (?&?&?&?). repeat split; auto; lia.
   - lia.
   - specialize (Hsc (idx pr)). lia.
   - specialize (Hsc (idx pr)). specialize (Hsp (idx pr)). lia.
-  - destruct (HholdC pr (or_introl eq_refl)) as [E1 E2]. rewrite E1, E2, HpC.
-    destruct H as (?&?&?&?&?&?). specialize (Hsp (idx pr)). repeat split; auto; lia.
-  - destruct (HholdC pr (or_intror (ex_intro _ d eq_refl))) as [E1 E2]. rewrite E1, E2, HpC.
-    destruct H as (?&?&?&?&?&?&Hpay). specialize (Hsp (idx pr)). repeat split; auto; try lia.
+  - destruct (HholdC pr (or_introl eq_refl)) as [E1 E2]. rewrite E1, E2.
+    destruct H as (?&?&?&?&?). specialize (Hsp (idx pr)). repeat split; auto; lia.
+  - destruct (HholdC pr (or_intror (ex_intro _ d eq_refl))) as [E1 E2]. rewrite E1, E2.
+    destruct H as (?&?&?&?&?&Hpay). specialize (Hsp (idx pr)). repeat split; auto; try lia.
     unfold payof in *. destruct (nth_error (wP m) pr) eqn:E; [|discriminate].
     rewrite (HwP _ _ E). exact Hpay.
 Qed.
 
 (* two different threads never hold the same slot on the same side *)
-Definition holdP (p : pc) : option nat := match p with P4 _ pw | P5 _ pw => Some pw | _ => None end.
-Definition holdC (p : pc) : option nat := match p with C4 pr | C5 pr _ => Some pr | _ => None end.
 
 Lemma exclP s m a t t0 pw pw0 :
   Inv s m a -> t0 <> t -> holdP (tpc (th s t)) = Some pw -> holdP (tpc (th s t0)) = Some pw0 ->
@@ -192,10 +195,10 @@ Proof.
   pose proof (i_th _ _ _ I t) as T1. pose proof (i_th _ _ _ I t0) as T2.
   assert (A1 : sp s (idx pw) = pw /\ exists v, nth_error (wP m) pw = Some (t, v)).
   { destruct (tpc (th s t)); try discriminate; injection H1 as ->; cbn [TI] in T1;
-      destruct T1 as (?&?&?&?&?); eauto. }
+      destruct T1 as (?&?&?&?); eauto. }
   assert (A2 : sp s (idx pw0) = pw0 /\ exists v, nth_error (wP m) pw0 = Some (t0, v)).
   { destruct (tpc (th s t0)); try discriminate; injection H2 as ->; cbn [TI] in T2;
-      destruct T2 as (?&?&?&?&?); eauto. }
+      destruct T2 as (?&?&?&?); eauto. }
   destruct A1 as (E1 & v1 & W1). destruct A2 as (E2 & v2 & W2).
   rewrite He in E2. assert (pw0 = pw) by congruence. subst pw0. congruence.
 Qed.
@@ -208,12 +211,12 @@ Proof.
   pose proof (i_th _ _ _ I t) as T1. pose proof (i_th _ _ _ I t0) as T2.
   assert (A1 : sc s (idx pr) = pr /\ nth_error (wC m) pr = Some t).
   { destruct (tpc (th s t)); try discriminate; injection H1 as ->; cbn [TI] in T1.
-    - destruct T1 as (?&?&?&?&?&?); eauto.
-    - destruct T1 as (?&?&?&?&?&?&?); eauto. }
+    - destruct T1 as (?&?&?&?&?); eauto.
+    - destruct T1 as (?&?&?&?&?&?); eauto. }
   assert (A2 : sc s (idx pr0) = pr0 /\ nth_error (wC m) pr0 = Some t0).
   { destruct (tpc (th s t0)); try discriminate; injection H2 as ->; cbn [TI] in T2.
-    - destruct T2 as (?&?&?&?&?&?); eauto.
-    - destruct T2 as (?&?&?&?&?&?&?); eauto. }
+    - destruct T2 as (?&?&?&?&?); eauto.
+    - destruct T2 as (?&?&?&?&?&?); eauto. }
   destruct A1 as (E1 & W1). destruct A2 as (E2 & W2).
   rewrite He in E2. assert (pr0 = pr) by congruence. subst pr0. congruence.
 Qed.
@@ -235,19 +238,20 @@ Lemma inv_local s m a t T' m' :
   Inv s m a ->
   wP m' = wP m -> wC m' = wC m -> pdone m' = pdone m -> pendP m' = pendP m -> pendC m' = pendC m ->
   (forall t0, t0 <> t -> rem m' t0 = rem m t0) -> rem m' t = cur T' ->
+  holdP (tpc T') = None -> holdC (tpc T') = None -> holdP (tpc (th s t)) = None -> holdC (tpc (th s t)) = None ->
   TI s m a t (tpc T') ->
   Inv (set_th s t T') m' a.
 Proof.
-  intros I E1 E2 E3 E4 E5 Hrem Hremt HT.
+  intros I E1 E2 E3 E4 E5 Hrem Hremt Hh1 Hh2 Hh3 Hh4 HT.
   assert (Hstab : forall t0 p, TI s m a t0 p -> TI (set_th s t T') m' a t0 p).
   { intros t0 p H. eapply TI_stable; [exact H | unfold set_th; stab ..].
     - rewrite E1; assumption.
-    - rewrite E2; assumption.
-    - rewrite E4; reflexivity.
-    - rewrite E5; reflexivity. }
+    - rewrite E2; assumption. }
   constructor; unfold set_th; cbn [pP pC sp sc sl th]; rewrite ?E1, ?E2, ?E3; try apply I.
   - intros i Hi. rewrite (i_pay _ _ _ I i Hi). apply map_ext. intros k. unfold payof. rewrite E1. reflexivity.
   - intros t0. thcase t0 t; [assumption | rewrite Hrem by assumption; apply I].
+  - intros t0. rewrite E4, E5. destruct (i_pend _ _ _ I t0) as [A B]. rewrite A, B.
+    thcase t0 t; [rewrite Hh1, Hh2, Hh3, Hh4|]; split; reflexivity.
   - intros t0. thcase t0 t; [apply (Hstab t _ HT) | apply (Hstab t0 _ (i_th _ _ _ I t0))].
 Qed.
 
@@ -288,8 +292,10 @@ Proof.
   - intros i k Hi' Hk. pose proof (i_slk _ _ _ I i k Hi' Hk). lia.
   - intros t0. thcase t0 t; [|apply I].
     rewrite (i_rem _ _ _ I t). unfold cur. rewrite Hpc. reflexivity.
+  - intros t0. destruct (i_pend _ _ _ I t0) as [A B]. thcase t0 t; [|split; assumption].
+    cbn [tpc holdP holdC]. rewrite B, Hpc. split; reflexivity.
   - intros t0. thcase t0 t.
-    + cbn [tpc TI pP sp wP pendP]. rewrite upd_same. repeat split; try lia.
+    + cbn [tpc TI pP sp wP]. repeat split; try lia.
       * destruct (i_hi _ _ _ I _ Hi) as [E|[E L]]; lia.
       * rewrite nth_error_app2, (i_lenP _ _ _ I), HP, Nat.sub_diag; [reflexivity | rewrite (i_lenP _ _ _ I); lia].
     + eapply TI_stable; [apply (i_th _ _ _ I t0) | stab ..].
@@ -307,7 +313,7 @@ Lemma pres_P4 s m a t v pw :
 Proof.
   intros I Hpc.
   pose proof (i_th _ _ _ I t) as Ht. rewrite Hpc in Ht. cbn [TI] in Ht.
-  destruct Ht as (Hsp & HltP & Hhi & HwP & Hpend).
+  destruct Ht as (Hsp & HltP & Hhi & HwP).
   pose proof (I1 pw) as Hi.
   constructor; cbn [pP pC sp sc sl th hi lo slk]; try apply I.
   - intros i Hi'. destruct (Nat.eq_dec i (idx pw)) as [->|Hne]; [rewrite upd_same | rewrite upd_other by assumption].
@@ -324,8 +330,10 @@ Proof.
     + apply (i_slk _ _ _ I); assumption.
   - intros t0. thcase t0 t; [|apply I].
     rewrite (i_rem _ _ _ I t). unfold cur. rewrite Hpc. reflexivity.
+  - intros t0. destruct (i_pend _ _ _ I t0) as [A B]. thcase t0 t; [|split; assumption].
+    cbn [tpc holdP holdC]. rewrite A, B, Hpc. split; reflexivity.
   - intros t0. thcase t0 t.
-    + cbn [tpc TI pP sp wP pendP hi]. rewrite upd_same. repeat split; assumption.
+    + cbn [tpc TI pP sp wP hi]. rewrite upd_same. repeat split; assumption.
     + eapply TI_stable; [apply (i_th _ _ _ I t0) | stab ..].
       * split; [reflexivity|]. apply upd_other.
         eapply (exclP s m a t t0); eauto; [rewrite Hpc; reflexivity | destruct H as [-> | ->]; reflexivity].
@@ -342,7 +350,7 @@ Lemma pres_P5 s m a t v pw :
 Proof.
   intros I Hpc.
   pose proof (i_th _ _ _ I t) as Ht. rewrite Hpc in Ht. cbn [TI] in Ht.
-  destruct Ht as (Hsp & HltP & Hhi & HwP & Hpend).
+  destruct Ht as (Hsp & HltP & Hhi & HwP).
   pose proof (I1 pw) as Hi.
   assert (Hmono : forall i, sp s i <= upd (sp s) (idx pw) (pw + mask + 1) i).
   { intros i. destruct (Nat.eq_dec i (idx pw)) as [->|Hne]; [rewrite upd_same; lia | rewrite upd_other by assumption; lia]. }
@@ -366,6 +374,8 @@ Proof.
     + left. assumption. + apply I; assumption.
   - intros t0. thcase t0 t; [|apply I]. rewrite (i_rem _ _ _ I t). unfold cur at 1. rewrite Hpc. cbn [tl].
     symmetry. apply cur_start.
+  - intros t0. destruct (i_pend _ _ _ I t0) as [A B]. thcase t0 t; [|split; assumption].
+    rewrite B, Hpc. destruct (tprog (th s t)) as [|[w|] r]; split; reflexivity.
   - intros t0. thcase t0 t.
     + destruct (tprog (th s t)) as [|[w|] r]; exact Logic.I.
     + eapply TI_stable; [apply (i_th _ _ _ I t0) | stab ..].
@@ -393,8 +403,10 @@ Proof.
   - intros i Hi'. destruct (i_lo _ _ _ I i Hi') as [E|[E L]]; [left; exact E | right; split; [exact E | lia]].
   - intros t0. thcase t0 t; [|apply I].
     rewrite (i_rem _ _ _ I t). unfold cur. rewrite Hpc. reflexivity.
+  - intros t0. destruct (i_pend _ _ _ I t0) as [A B]. thcase t0 t; [|split; assumption].
+    cbn [tpc holdP holdC]. rewrite A, Hpc. split; reflexivity.
   - intros t0. thcase t0 t.
-    + cbn [tpc TI pC sc sp wC pendC]. rewrite upd_same. repeat split; try lia.
+    + cbn [tpc TI pC sc sp wC]. repeat split; try lia.
       * destruct (i_lo _ _ _ I _ Hi) as [E|[E L]]; lia.
       * rewrite nth_error_app2, (i_lenC _ _ _ I), HC, Nat.sub_diag; [reflexivity | rewrite (i_lenC _ _ _ I); lia].
     + eapply TI_stable; [apply (i_th _ _ _ I t0) | stab ..].
@@ -412,7 +424,7 @@ Lemma pres_C4 s m a t pr :
 Proof.
   intros I Hpc.
   pose proof (i_th _ _ _ I t) as Ht. rewrite Hpc in Ht. cbn [TI] in Ht.
-  destruct Ht as (Hsc & HltC & HltP & Hlo & HwC & Hpend).
+  destruct Ht as (Hsc & HltC & HltP & Hlo & HwC).
   pose proof (I1 pr) as Hi.
   pose proof (i_chain _ _ _ I _ Hi) as Hch. rewrite Hlo in Hch.
   pose proof (i_pay _ _ _ I _ Hi) as Hpay.
@@ -436,8 +448,10 @@ Proof.
     + apply (i_slk _ _ _ I); assumption.
   - intros t0. thcase t0 t; [|apply I].
     rewrite (i_rem _ _ _ I t). unfold cur. rewrite Hpc. reflexivity.
+  - intros t0. destruct (i_pend _ _ _ I t0) as [A B]. thcase t0 t; [|split; assumption].
+    cbn [tpc holdP holdC]. rewrite A, B, Hpc. split; reflexivity.
   - intros t0. thcase t0 t.
-    + cbn [tpc TI pC sc sp wC pendC lo]. rewrite upd_same. repeat split; try assumption. symmetry; exact Hd.
+    + cbn [tpc TI pC sc sp wC lo]. rewrite upd_same. repeat split; try assumption. symmetry; exact Hd.
     + eapply TI_stable; [apply (i_th _ _ _ I t0) | stab ..].
       * split; [reflexivity|]. apply upd_other.
         eapply (exclC s m a t t0); eauto; [rewrite Hpc; reflexivity | destruct H as [-> | [d0 ->]]; reflexivity].
@@ -454,7 +468,7 @@ Lemma pres_C5 s m a t pr d :
 Proof.
   intros I Hpc.
   pose proof (i_th _ _ _ I t) as Ht. rewrite Hpc in Ht. cbn [TI] in Ht.
-  destruct Ht as (Hsc & HltC & HltP & Hlo & HwC & Hpend & Hpay).
+  destruct Ht as (Hsc & HltC & HltP & Hlo & HwC & Hpay).
   pose proof (I1 pr) as Hi.
   assert (Hmono : forall i, sc s i <= upd (sc s) (idx pr) (pr + mask + 1) i).
   { intros i. destruct (Nat.eq_dec i (idx pr)) as [->|Hne]; [rewrite upd_same; lia | rewrite upd_other by assumption; lia]. }
@@ -470,6 +484,8 @@ Proof.
     + left. assumption. + apply I; assumption.
   - intros t0. thcase t0 t; [|apply I]. rewrite (i_rem _ _ _ I t). unfold cur at 1. rewrite Hpc. cbn [tl].
     symmetry. apply cur_start.
+  - intros t0. destruct (i_pend _ _ _ I t0) as [A B]. thcase t0 t; [|split; assumption].
+    rewrite A, Hpc. destruct (tprog (th s t)) as [|[w|] r]; split; reflexivity.
   - intros t0. thcase t0 t.
     + destruct (tprog (th s t)) as [|[w|] r]; exact Logic.I.
     + eapply TI_stable; [apply (i_th _ _ _ I t0) | stab ..].
@@ -487,29 +503,30 @@ Lemma step_inv t s m a :
 Proof.
   intros I. unfold step.
   pose proof (i_th _ _ _ I t) as Ht. pose proof (i_rem _ _ _ I t) as Hrem. unfold cur in Hrem.
-  assert (Hloc : forall p, cur {| tpc := p; tprog := tprog (th s t) |} = rem m t -> TI s m a t p ->
-                 Inv (goto s t p) m a).
-  { intros p Hc HT. unfold goto. apply (inv_local s m a); auto. }
-  destruct (tpc (th s t)) eqn:Hpc; cbn [TI] in Ht.
+  destruct (i_pend _ _ _ I t) as [HpP HpC]. unfold idle.
+  assert (Hloc : forall p, cur {| tpc := p; tprog := tprog (th s t) |} = rem m t ->
+                 holdP p = None -> holdC p = None -> pendP m t = None -> pendC m t = None ->
+                 TI s m a t p -> Inv (goto s t p) m a).
+  { intros p Hc H1 H2 H3 H4 HT. unfold goto. apply (inv_local s m a); auto; congruence. }
+  destruct (tpc (th s t)) eqn:Hpc; cbn [TI] in Ht; cbn [holdP holdC] in HpP, HpC.
   - (* Idle *) exists m, a. split; [reflexivity | exact I].
-  - (* P1 *) exists m, a. split; [reflexivity|]. apply Hloc; [rewrite Hrem; reflexivity | exact Logic.I].
-  - (* P2 *) exists m, a. split; [reflexivity|]. apply Hloc.
-    + rewrite Hrem. destruct (Nat.eqb pw _); reflexivity.
-    + destruct (Nat.eqb_spec pw (sp s (idx pw))); cbn [TI]; [lia | exact Logic.I].
+  - (* P1 *) exists m, a. split; [reflexivity|]. apply Hloc; auto; try (rewrite Hrem; reflexivity); try exact Logic.I.
+  - (* P2 *) exists m, a. split; [reflexivity|].
+    destruct (Nat.eqb_spec pw (sp s (idx pw))); apply Hloc; auto; try (rewrite Hrem; reflexivity); try exact Logic.I; try (cbn [TI]; lia).
   - (* P3 *) destruct (Nat.eqb_spec (pP s) pw) as [HP|HP]; cbn [fst snd].
     + eexists; exists a. split; [|apply (pres_P3 s m a t v pw I Hpc HP)].
-      cbn [mons mon_step]. rewrite (i_lenP _ _ _ I), HP, Nat.eqb_refl, Hrem. cbn [hd_error is_push andb].
+      cbn [mons mon_step]. unfold idle.
+      rewrite (i_lenP _ _ _ I), HP, Nat.eqb_refl, Hrem, HpP, HpC. cbn [hd_error is_push andb].
       rewrite Nat.eqb_refl. reflexivity.
-    + exists m, a. split; [reflexivity|]. apply Hloc; [rewrite Hrem; reflexivity | exact Logic.I].
+    + exists m, a. split; [reflexivity|]. apply Hloc; auto; try (rewrite Hrem; reflexivity); try exact Logic.I.
   - (* P4 *) cbn [fst snd]. eexists; eexists. split; [|apply (pres_P4 s m a t v pw I Hpc)]. reflexivity.
-  - (* P5 *) cbn [fst snd]. destruct Ht as (Hsp & HltP & Hhi & HwP & Hpend).
+  - (* P5 *) cbn [fst snd]. destruct Ht as (Hsp & HltP & Hhi & HwP).
     eexists; exists a. split; [|apply (pres_P5 s m a t v pw I Hpc)].
-    cbn [mons mon_step]. rewrite Hpend, HwP, Hrem. cbn [hd_error is_push].
+    cbn [mons mon_step]. rewrite HpP, HwP, Hrem. cbn [hd_error is_push].
     rewrite !Nat.eqb_refl. reflexivity.
-  - (* C1 *) exists m, a. split; [reflexivity|]. apply Hloc; [rewrite Hrem; reflexivity | cbn [TI]; lia].
-  - (* C2 *) exists m, a. split; [reflexivity|]. apply Hloc.
-    + rewrite Hrem. destruct (Nat.eqb pr _); reflexivity.
-    + destruct (Nat.eqb_spec pr (sc s (idx pr))); cbn [TI]; [lia | exact Logic.I].
+  - (* C1 *) exists m, a. split; [reflexivity|]. apply Hloc; auto; try (rewrite Hrem; reflexivity); try exact Logic.I; try (cbn [TI]; lia).
+  - (* C2 *) exists m, a. split; [reflexivity|].
+    destruct (Nat.eqb_spec pr (sc s (idx pr))); apply Hloc; auto; try (rewrite Hrem; reflexivity); try exact Logic.I; try (cbn [TI]; lia).
   - (* C3 *) destruct Ht as (HleC & Hle).
     destruct (Nat.leb_spec (sp s (idx pr)) pr) as [Hx|Hx]; cbn [fst snd].
     + (* pop reports empty *)
@@ -519,24 +536,29 @@ Proof.
       assert (Hnd : mem pr (pdone m) = false).
       { destruct (mem pr (pdone m)) eqn:E; [|reflexivity]. apply (i_done _ _ _ I) in E. lia. }
       eexists; exists a. split.
-      * cbn [mons mon_step]. rewrite (i_lenC _ _ _ I), <- HprC, Nat.eqb_refl, Hnd, Hrem.
+      * cbn [mons mon_step]. unfold idle.
+        rewrite (i_lenC _ _ _ I), <- HprC, Nat.eqb_refl, Hnd, Hrem, HpP, HpC.
         cbn [hd_error is_pop negb andb]. reflexivity.
       * apply (inv_local s m a); cbn [wP wC pdone pendP pendC rem]; auto.
         -- intros. apply upd_other; assumption.
         -- rewrite upd_same, cur_start. reflexivity.
+        -- destruct (tprog (th s t)) as [|[w|] r]; reflexivity.
+        -- destruct (tprog (th s t)) as [|[w|] r]; reflexivity.
+        -- rewrite Hpc; reflexivity.
+        -- rewrite Hpc; reflexivity.
         -- apply TI_start.
-    + exists m, a. split; [reflexivity|]. apply Hloc; [rewrite Hrem; reflexivity | cbn [TI]; lia].
+    + exists m, a. split; [reflexivity|]. apply Hloc; auto; try (rewrite Hrem; reflexivity); try exact Logic.I; try (cbn [TI]; lia).
   - (* C3a *) destruct Ht as (Hle & Hlt).
     destruct (Nat.eqb_spec (pC s) pr) as [HC|HC]; cbn [fst snd].
     + eexists; exists a. split; [|apply (pres_C3a s m a t pr I Hpc HC)].
-      cbn [mons mon_step]. rewrite (i_lenC _ _ _ I), HC, Nat.eqb_refl, Hrem.
+      cbn [mons mon_step]. unfold idle. rewrite (i_lenC _ _ _ I), HC, Nat.eqb_refl, Hrem, HpP, HpC.
       rewrite (proj2 (i_done _ _ _ I pr) Hlt). reflexivity.
-    + exists m, a. split; [reflexivity|]. apply Hloc; [rewrite Hrem; reflexivity | exact Logic.I].
+    + exists m, a. split; [reflexivity|]. apply Hloc; auto; try (rewrite Hrem; reflexivity); try exact Logic.I.
   - (* C4 *) destruct (pres_C4 s m a t pr I Hpc) as (d & rest & Hsl & Hpay & I').
     rewrite Hsl. cbn [fst snd]. eexists; eexists. split; [|exact I']. reflexivity.
-  - (* C5 *) cbn [fst snd]. destruct Ht as (Hsc & HltC & HltP & Hlo & HwC & Hpend & Hpay).
+  - (* C5 *) cbn [fst snd]. destruct Ht as (Hsc & HltC & HltP & Hlo & HwC & Hpay).
     eexists; exists a. split; [|apply (pres_C5 s m a t pr d I Hpc)].
-    cbn [mons mon_step]. rewrite Hpend, Hrem. unfold payof in Hpay.
+    cbn [mons mon_step]. rewrite HpC, Hrem. unfold payof in Hpay.
     destruct (nth_error (wP m) pr) as [[t' v']|]; [|discriminate]. cbn in Hpay. injection Hpay as ->.
     rewrite !Nat.eqb_refl. reflexivity.
 Qed.
